@@ -16,9 +16,12 @@ Modelling conventions (trusted steps):
 
 * `binary_search_by` over the rows is "the first row containing `cu`" (`findRow`); on a table whose
   rows are sorted and disjoint (`Proofs/C10.lean: folds_rows_wf`) that is *the* row containing `cu`.
+  The faithful transcription `foldBinWith` (std's `binary_search_by`) is proved equal in
+  `Proofs/C10.lean: fold_bin_faithful`.
 * `FOLDS.equal_range_by(..)` in `fold_interval` is the linear scan it equals on sorted rows (same
   convention as `CPS.equalRange`): skip the leading rows comparing `Less`, take the following rows
-  comparing `Equal`.
+  comparing `Equal`. The faithful transcription is `overlapRowsBin`
+  (`Proofs/C10.lean: overlapRows_faithful`).
 * `predicate_mask() + 1` is the stored `modulo` (`mask = modulo - 1`, `modulo ≥ 1`).
 * `while cu <= last { ..; cu += modulo }` is `strideWalk` with fuel `last + 1 - start` (enough
   whenever `modulo ≥ 1`); `for cu in a..(b + 1)` is a fold over `List.range' a (b + 1 - a)`.
@@ -97,6 +100,24 @@ def foldWith (tbl : List FoldRange) (cu : Nat) : Nat :=
   match findRow tbl cu with
   | some fr => fr.apply cu
   | none => cu
+
+/-- The comparator closure of `fold` / `uppercase`'s `binary_search_by`. -/
+def rowCmp (cu : Nat) (fr : FoldRange) : Ordering :=
+  if fr.first > cu then Ordering.gt
+  else if fr.last < cu then Ordering.lt
+  else Ordering.eq
+
+/-- `fold` / `uppercase` transcribed with std's `binary_search_by` (`CPS.binarySearchBy`) instead of
+`findRow`. `none` is an out-of-bounds `get_unchecked(index)` (resp. the `expect("Invalid index")`
+panic). `Proofs/C10.lean: fold_bin_faithful` shows it is `some (foldWith tbl cu)` on both tables. -/
+def foldBinWith (tbl : List FoldRange) (cu : Nat) : Option Nat :=
+  match CPS.binarySearchBy tbl.toArray (rowCmp cu) with
+  | none => none
+  | some (.ok index) =>
+    match tbl[index]? with
+    | some fr => some (fr.apply cu)
+    | none => none
+  | some (.error _) => some cu
 
 /-- `transformed_to`. -/
 def FoldRange.transformedTo (fr : FoldRange) : CPS.Interval :=
@@ -183,6 +204,14 @@ def overlapRows (tbl : List FoldRange) (iv : CPS.Interval) : List FoldRange :=
   let left := (tbl.takeWhile (fun tr => overlapCmp iv tr == Ordering.lt)).length
   let right := left + ((tbl.drop left).takeWhile (fun tr => overlapCmp iv tr == Ordering.eq)).length
   (tbl.drop left).take (right - left)
+
+/-- `&TABLE[TABLE.equal_range_by(overlapCmp iv)]` with the faithful `equal_range_by`
+(`CPS.equalRangeBy`: two `binary_search_by` calls); `none` is a panic. `Proofs/C10.lean:
+overlapRows_faithful` shows it is `some (overlapRows tbl iv)` for every non-empty `iv`. -/
+def overlapRowsBin (tbl : List FoldRange) (iv : CPS.Interval) : Option (List FoldRange) :=
+  match CPS.equalRangeBy tbl (overlapCmp iv) with
+  | some (left, right) => some ((tbl.drop left).take (right - left))
+  | none => none
 
 /-- Body of `for fr in &FOLDS[overlaps]` in `fold_interval`. -/
 def foldIntervalRow (fr : FoldRange) (iv : CPS.Interval) (recv : CPS.IvList) : CPS.IvList :=
